@@ -19,7 +19,7 @@ def main(argv):
             inputs = [json.load(f)["input"]["id"]]
         rep.replay_only = args.replay
     else:
-        inputs = rb.domain_inputs(args.tier, args.seed, "XRBSKL")
+        inputs = rb.domain_inputs(args.tier, args.seed, "XRBSKLV")
     d = rb.workdir(PROP)
     try:
         res = rb.record_domain(inputs, d, jobs=args.jobs, shards=args.jobs, stages=True, heavy=70)
